@@ -98,6 +98,12 @@ def corpus():
         mk('startswith', '[a]'),         # witness of tsql_bracket_class
         mk('endswith', '\\\n'),          # witness of tsql_line_continuation
         mk('endswith', 'a\\\nb'),
+        # seeded scenario A (escapes written back into the expression): count() then iteration of one select
+        dict(mk('contains', '100%'), store=[R.cps(t) for t in ['100%', '100\\%', '100\\\\\\%', '100 percent', 'x100%y']]),
+        dict(mk('startswith', '50%_\\'), order=['sqlite', 'sqlite']),
+        # seeded scenario B (LIKE text memoised without the dialect): rendered for mysql/postgres first, then run on sqlite
+        dict(mk('contains', 'a\\b'), store=[R.cps(t) for t in ['a\\b', 'a\\\\b', 'ab', 'xa\\by']], order=['mysql', 'postgres']),
+        dict(mk('endswith', '%\\'), store=[R.cps(t) for t in ['50%\\', '50%\\\\', '50%']], order=['postgres', 'mysql']),
         mk('contains', '50%_\\\''),
         mk('startswith', '%'),
         mk('endswith', '_'),
@@ -123,7 +129,7 @@ def search_cases(rng, tier):
     for s in all_strings(ARG_ALPHA, 3):
         for k in KINDS:
             out.append({'kind': k, 'arg': R.cps(s), 'store': ['all', 2]})
-    for _ in range(3000):
+    for _ in range(1500):       # bounded: the search must stay within a few minutes
         s = rand_arg(rng)
         out.append({'kind': rng.choice(KINDS), 'arg': R.cps(s), 'store': [R.cps(t) for t in derived_store(rng, s)]})
     return out
@@ -166,11 +172,29 @@ def _fill(env, cls, texts):
 PRED = {'startswith': lambda s, t: t.startswith(s), 'endswith': lambda s, t: t.endswith(s), 'contains': lambda s, t: s in t}
 
 
-def run_impl(cases):
+LIMIT = 4000          # no rendering of these small inputs comes anywhere near this many characters
+IMPL_TIMEOUT = 600
+
+
+class Oversize(Exception):
+    pass
+
+
+def _render(obj, d):
     from sqlobject.sqlbuilder import sqlrepr
+    t = sqlrepr(obj, d)
+    if len(t) > LIMIT:
+        raise Oversize('%d characters' % len(t))
+    return t
+
+
+ORDERS = [('mysql', 'postgres'), ('postgres', 'mysql'), ('mssql', 'mysql'), ('postgres', 'firebird')]
+
+
+def run_impl(cases):
     env = _env()
     out = []
-    for c in cases:
+    for ci, c in enumerate(cases):
         try:
             s = R.from_cps(c['arg'])
             k = c['kind']
@@ -186,14 +210,29 @@ def run_impl(cases):
                 texts = [R.from_cps(t) for t in c['store']]
                 _fill(env, cls, texts)
             o = {'col': '%s.t' % cls.sqlmeta.table}
-            expr = getattr(cls.q.t, k)(s)
-            o['patterns'] = [R.cps(sqlrepr(expr.string, d)) for d in R.DIALECTS]
-            o['exprs'] = [R.cps(sqlrepr(expr, d)) for d in R.DIALECTS]
+            mk = lambda: getattr(cls.q.t, k)(s)
+            # the text matrix: a FRESH expression object per dialect (first rendering of each)
+            o['patterns'] = [R.cps(_render(mk().string, d)) for d in R.DIALECTS]
+            o['exprs'] = [R.cps(_render(mk(), d)) for d in R.DIALECTS]
             dec = [R.lex_lit(d, R.from_cps(p)) for d, p in zip(R.DIALECTS, o['patterns'])]
             o['dec'] = [[r[0]] + ([R.cps(r[1]), R.cps(r[2])] if r[0] == 'ok' else [r[1]]) for r in dec]
-            # the real engine
+            # ONE expression object: rendered for two other dialects, twice for sqlite, then executed on sqlite
+            # (count(), iteration, iteration again on the same select) -- an expression must not remember anything
+            expr = mk()
+            order = list(c.get('order') or ORDERS[(ci + len(s)) % len(ORDERS)]) + ['sqlite', 'sqlite']
+            re_ = []
             try:
-                o['rows'] = sorted(r.id - 1 for r in cls.select(getattr(cls.q.t, k)(s)))
+                for d in order:
+                    re_.append([d, R.cps(_render(expr, d))])
+            except Oversize as e:
+                re_.append(['oversize', str(e)])
+            o['rerender'] = re_
+            try:
+                sel = cls.select(expr)
+                n = sel.count()
+                o['count'] = n
+                o['rows'] = sorted(r.id - 1 for r in sel)
+                o['rows_again'] = sorted(r.id - 1 for r in sel)
             except Exception as e:
                 o['rows'] = ['exc', type(e).__name__]
             # the other dialects: decoded implementation pattern under the reference matcher vs the Python predicate
@@ -220,6 +259,8 @@ def run_impl(cases):
                     probe.append([R.cps(t), bool(R.like_match(R.eq_exact, '\\', dec[1][1], t)),
                                   bool(R.tsql_like(R.eq_exact, '\\', dec[6][1], t))])
             o['probe'] = probe
+        except Oversize as e:
+            o = {'oversize': str(e)}
         except Exception as e:
             o = {'crash': '%s: %s' % (type(e).__name__, e)}
         out.append(o)
@@ -229,6 +270,9 @@ def run_impl(cases):
 # ---------------------------------------------------------------- Coq side
 def coq_case(c, o):
     s = R.from_cps(c['arg'])
+    if 'oversize' in o:
+        return ('{| c_kind := %s; c_arg := %s; c_col := []; c_patterns := []; c_exprs := []; c_decoded := []; '
+                'c_store := SList []; c_rows := None; c_probe := [] |}' % (COQ_KIND[c['kind']], R.coq_str(s)))
     if c['store'] and c['store'][0] == 'all':
         store = '(SAll %s %d)' % (R.coq_str(STORE_ALPHA), c['store'][1])
     else:
@@ -253,9 +297,26 @@ def _texts(c):
 def failures(c, o):
     s = R.from_cps(c['arg'])
     k = c['kind']
+    if 'oversize' in o:
+        return [{'dialect': 'any', 'what': 'the rendering of %s(%r) is absurdly long (%s)' % (k, s, o['oversize'])}]
     texts = _texts(c)
     pred = PRED[k]
     out = []
+    # one expression object rendered repeatedly / for several dialects: every rendering must be the first rendering
+    for item in o.get('rerender', []):
+        if item[0] == 'oversize':
+            out.append({'dialect': 'sqlite', 'what': 'rendering the same %s(%r) object again keeps growing the text (%s)' % (k, s, item[1])})
+            break
+        want = o['exprs'][R.DIALECTS.index(item[0])]
+        if item[1] != want:
+            out.append({'dialect': item[0], 'what': 'the same %s(%r) object renders differently after earlier renderings' % (k, s),
+                        'order': [x[0] for x in o['rerender']], 'fresh_object': R.from_cps(want), 'reused_object': R.from_cps(item[1])})
+            break
+    if o['rows'] and o['rows'][0] != 'exc':
+        if o.get('count') != len(o['rows']) or o.get('rows_again') != o['rows']:
+            out.append({'dialect': 'sqlite', 'what': 'count(), iteration and a second iteration of ONE select with %s(%r) disagree' % (k, s),
+                        'count': o.get('count'), 'rows': [texts[i] for i in o['rows']][:6],
+                        'rows_again': [texts[i] for i in o.get('rows_again', [])][:6]})
     unrepresentable = any(ch == '\x00' or 0xD800 <= ord(ch) <= 0xDFFF for ch in s)
     if o['rows'] and o['rows'][0] == 'exc':
         if not unrepresentable:
